@@ -90,8 +90,16 @@ def check_delegation(ctx, rule, only_array=False, only=None):
             fi = P.func(callee)
             probs = []
             defaults = fi.defaults()
+            # what the *returned* value was evaluated at, when it is a single evaluation of the correlation (element i of
+            # the result then belongs to element i of these arguments, however the evaluation was organised - per
+            # element, once per distinct pressure and gathered back, ...); otherwise the arguments of the call itself
+            rat = it.single_atom(it.to_nf(p.value)) if p.value is not None else None
+            names_ = [x for x in fi.params + fi.kwonly if x in a]
+            from_value = {}
+            if rat is not None and rat[0] == "fn" and rat[1] == callee and len(rat[2]) == len(names_):
+                from_value = {x: nf.unkey(k_) for x, k_ in zip(names_, rat[2])}
             for par in fi.params:
-                got = it.to_nf(a[par])
+                got = from_value.get(par, it.to_nf(a[par]))
                 field = ALIAS.get(par, par)
                 if field in FIELDS:
                     want = nf.sym("self." + field)
